@@ -164,6 +164,15 @@ Proof.
   destruct (l <? 269); [destruct (m <? 2) eqn:E|destruct (m <? 3) eqn:E]; lia.
 Qed.
 
+Lemma uri_sethdr_size_fit m l :
+  0 <= l -> 1 + ext_size l <= m -> uri_sethdr_size m l = 1 + ext_size l.
+Proof.
+  intros Hl Hm. unfold uri_sethdr_size, ext_size in *.
+  destruct (m =? 0) eqn:E0; [destruct (l <? 13); [|destruct (l <? 269)]; lia|].
+  destruct (l <? 13); [lia|].
+  destruct (l <? 269); [destruct (m <? 2) eqn:E|destruct (m <? 3) eqn:E]; lia.
+Qed.
+
 Lemma uri_opt_enc0_len v : len (opt_enc 0 v) = 1 + ext_size (len v) + len v.
 Proof. rewrite opt_enc_len. unfold opt_encode_size, ext_size at 1. cbn. lia. Qed.
 
@@ -279,11 +288,6 @@ Qed.
 
 (* ---- well-formed input, buffer large enough: exactly the specification ---- *)
 
-Definition uri_encs (l : list bytes) : list bytes := map (opt_enc 0) l.
-
-Lemma uri_need_nonneg raws : 0 <= uri_need raws.
-Proof. induction raws; cbn [uri_need]; [lia|]. pose proof (len_nonneg a). lia. Qed.
-
 Lemma uri_kind_cases d :
   (uri_kind d = 1 /\ uri_is_dot d = true) \/
   (uri_kind d = 2 /\ uri_is_dot d = false /\ uri_is_dotdot d = true) \/
@@ -294,23 +298,26 @@ Qed.
 
 (* pushing one decoded segment when there is room for it *)
 Lemma uri_Hwrite_push seg v st :
-  uri_pct_decode seg = Some v -> 3 + len seg <= uw_rem st ->
+  uri_pct_decode seg = Some v -> len (opt_enc 0 v) <= uw_rem st ->
   uri_Hwrite seg st =
   {| uw_ropts := opt_enc 0 v :: uw_ropts st; uw_rem := uw_rem st - len (opt_enc 0 v) |}.
 Proof.
   intros Ed Hr. unfold uri_Hwrite. rewrite Ed.
-  pose proof (uri_pct_decode_len seg v Ed) as Hl. pose proof (len_nonneg v) as Hv.
-  destruct (uw_rem st =? 0) eqn:E0; [lia|].
-  rewrite uri_sethdr_size_enough by lia.
+  rewrite uri_opt_enc0_len in *. pose proof (len_nonneg v) as Hv.
   pose proof (uri_ext_size_range (len v)).
+  destruct (uw_rem st =? 0) eqn:E0; [lia|].
+  rewrite uri_sethdr_size_fit by lia.
   destruct (1 + ext_size (len v) =? 0) eqn:E1; [lia|].
   destruct (uw_rem st - (1 + ext_size (len v)) <? len v) eqn:E2; [lia|].
-  rewrite uri_opt_enc0_len. unfold opt_enc. f_equal; lia.
+  unfold opt_enc. f_equal; lia.
 Qed.
+
+Lemma uri_peak_ge ds stack : uri_sumlen (uri_encs stack) <= uri_peak ds stack.
+Proof. destruct ds; cbn [uri_peak]; lia. Qed.
 
 Lemma uri_fold_Hbuf_spec base : forall raws ds stack,
   uri_decode_all raws = Some ds ->
-  uri_sumlen (uri_encs stack) + uri_need raws <= base ->
+  uri_peak ds stack <= base ->
   fold_left (fun st seg => uri_Hbuf base seg st) raws
             {| uw_ropts := uri_encs stack; uw_rem := base - uri_sumlen (uri_encs stack) |} =
   {| uw_ropts := uri_encs (uri_resolve ds stack);
@@ -321,29 +328,27 @@ Proof.
   - cbn [uri_decode_all] in Hd.
     destruct (uri_pct_decode seg) as [d|] eqn:Ed; [|discriminate].
     destruct (uri_decode_all raws) as [dt|] eqn:Et; [|discriminate].
-    injection Hd as <-. cbn [fold_left uri_resolve uri_need] in *.
-    pose proof (len_nonneg seg) as Hs. pose proof (uri_need_nonneg raws) as Hnr.
+    injection Hd as <-. cbn [fold_left uri_resolve uri_peak] in *.
     unfold uri_Hbuf at 2. rewrite (uri_dots_p_decode seg d Ed).
-    destruct (uri_kind_cases d) as [[K D1]|[[K [D1 D2]]|[K [D1 D2]]]]; rewrite K, D1; try rewrite D2;
-      cbn [Z.eqb Pos.eqb].
+    unfold uri_next in Hn.
+    destruct (uri_kind_cases d) as [[K D1]|[[K [D1 D2]]|[K [D1 D2]]]]; rewrite K; rewrite D1 in *;
+      try rewrite D2 in *; cbn [Z.eqb Pos.eqb].
     + apply IH; [reflexivity|lia].
     + assert (E : uri_backup base {| uw_ropts := uri_encs stack;
                                      uw_rem := base - uri_sumlen (uri_encs stack) |} =
                   {| uw_ropts := uri_encs (tl stack);
                      uw_rem := base - uri_sumlen (uri_encs (tl stack)) |}).
       { unfold uri_backup. destruct stack as [|x t]; reflexivity. }
-      rewrite E. apply IH; [reflexivity|].
-      destruct stack as [|x t]; cbn [tl uri_encs map uri_sumlen] in *; [lia|].
-      pose proof (len_nonneg (opt_enc 0 x)). lia.
-    + rewrite (uri_Hwrite_push seg d _ Ed) by (cbn [uw_rem]; lia).
+      rewrite E. apply IH; [reflexivity|lia].
+    + pose proof (uri_peak_ge dt (d :: stack)) as Hp.
+      unfold uri_encs in Hp. cbn [map uri_sumlen] in Hp. fold (uri_encs stack) in Hp.
+      rewrite (uri_Hwrite_push seg d _ Ed) by (cbn [uw_rem]; lia).
       cbn [uw_ropts uw_rem].
       change (opt_enc 0 d :: uri_encs stack) with (uri_encs (d :: stack)).
       replace (base - uri_sumlen (uri_encs stack) - len (opt_enc 0 d))
-        with (base - uri_sumlen (uri_encs (d :: stack))) by (unfold uri_encs; cbn [map uri_sumlen]; lia).
-      apply IH; [reflexivity|].
-      unfold uri_encs. cbn [map uri_sumlen]. rewrite uri_opt_enc0_len.
-      pose proof (uri_pct_decode_len seg d Ed). pose proof (uri_ext_size_range (len d)).
-      fold (uri_encs stack). lia.
+        with (base - uri_sumlen (uri_encs (d :: stack)))
+        by (unfold uri_encs; cbn [map uri_sumlen]; lia).
+      apply IH; [reflexivity|lia].
 Qed.
 
 Lemma uri_encs_rev l : rev (uri_encs l) = uri_encs (rev l).
@@ -358,8 +363,8 @@ Proof.
   destruct (uri_decode_all (uri_raw_path_segs s)) as [ds|] eqn:Ed; [|discriminate].
   injection Hs as <-.
   rewrite uri_split_path_fold. cbv zeta.
-  pose proof (uri_fold_Hbuf_spec buflen (uri_raw_path_segs s) ds [] Ed) as F.
-  cbn [uri_encs map uri_sumlen] in F. rewrite Z.sub_0_r in F. rewrite F by lia.
+  pose proof (uri_fold_Hbuf_spec buflen (uri_raw_path_segs s) ds [] Ed Hn) as F.
+  cbn [uri_encs map uri_sumlen] in F. rewrite Z.sub_0_r in F. rewrite F.
   cbn [uw_ropts uw_rem]. rewrite uri_encs_rev. fold (uri_encs (uri_resolve ds [])).
   rewrite <- (uri_sumlen_rev (uri_encs (uri_resolve ds []))), uri_encs_rev.
   f_equal. f_equal. lia.
@@ -367,7 +372,7 @@ Qed.
 
 Lemma uri_fold_Hwrite_spec base : forall raws ds stack,
   uri_decode_all raws = Some ds ->
-  uri_sumlen (uri_encs stack) + uri_need raws <= base ->
+  uri_sumlen (uri_encs stack) + uri_sumlen (uri_encs ds) <= base ->
   fold_left (fun st seg => uri_Hwrite seg st) raws
             {| uw_ropts := uri_encs stack; uw_rem := base - uri_sumlen (uri_encs stack) |} =
   {| uw_ropts := uri_encs (rev ds ++ stack);
@@ -378,28 +383,28 @@ Proof.
   - cbn [uri_decode_all] in Hd.
     destruct (uri_pct_decode seg) as [d|] eqn:Ed; [|discriminate].
     destruct (uri_decode_all raws) as [dt|] eqn:Et; [|discriminate].
-    injection Hd as <-. cbn [fold_left uri_need rev] in *.
-    pose proof (len_nonneg seg) as Hs. pose proof (uri_need_nonneg raws) as Hnr.
+    injection Hd as <-. cbn [fold_left rev] in *.
+    unfold uri_encs in Hn. cbn [map uri_sumlen] in Hn. fold (uri_encs stack) in Hn.
+    fold (uri_encs dt) in Hn. pose proof (uri_sumlen_nonneg (uri_encs dt)) as Hdt.
     rewrite (uri_Hwrite_push seg d _ Ed) by (cbn [uw_rem]; lia).
     cbn [uw_ropts uw_rem].
     change (opt_enc 0 d :: uri_encs stack) with (uri_encs (d :: stack)).
     replace (base - uri_sumlen (uri_encs stack) - len (opt_enc 0 d))
-      with (base - uri_sumlen (uri_encs (d :: stack))) by (unfold uri_encs; cbn [map uri_sumlen]; lia).
+      with (base - uri_sumlen (uri_encs (d :: stack)))
+      by (unfold uri_encs; cbn [map uri_sumlen]; lia).
     rewrite <- app_assoc. cbn [app].
     apply IH; [reflexivity|].
-    cbn [uri_encs map uri_sumlen]. rewrite uri_opt_enc0_len.
-    pose proof (uri_pct_decode_len seg d Ed). pose proof (uri_ext_size_range (len d)).
-    fold (uri_encs stack). lia.
+    unfold uri_encs. cbn [map uri_sumlen]. fold (uri_encs stack). fold (uri_encs dt). lia.
 Qed.
 
 Theorem uri_split_query_spec s buflen opts :
   uri_spec_query s = Some opts -> uri_query_need s <= buflen ->
   uri_split_query s buflen = UOk (uri_encs opts, uri_sumlen (uri_encs opts)).
 Proof.
-  unfold uri_spec_query, uri_query_need. intros Hs Hn.
+  unfold uri_spec_query, uri_query_need. intros Hs Hn. rewrite Hs in Hn.
   rewrite uri_split_query_fold. cbv zeta.
   pose proof (uri_fold_Hwrite_spec buflen (uri_raw_query_items s) opts [] Hs) as F.
-  cbn [uri_encs map uri_sumlen] in F. rewrite Z.sub_0_r in F. rewrite F by lia.
+  cbn [uri_encs map uri_sumlen] in F. rewrite Z.sub_0_r in F. rewrite F by (fold (uri_encs opts); lia).
   cbn [uw_ropts uw_rem]. rewrite app_nil_r, uri_encs_rev, rev_involutive.
   rewrite <- (uri_sumlen_rev (uri_encs (rev opts))), uri_encs_rev, rev_involutive.
   f_equal. f_equal. lia.
